@@ -839,7 +839,13 @@ def main(tier, replay=None):
         "closing context), with every single token deleted, and 1/3 duplicated / replaced; a small design truncated at every "
         "token; windows of library tokens placed in 17 parse contexts with 1-3 token mutations "
         "(delete/duplicate/insert/replace/truncate/swap/drop run); character-level library slices starting at unit keywords "
-        "with fuzz mutations; keyword/delimiter soup; arbitrary bytes decoded as Latin-1; non-Latin-1 streams; mixed-width lines "
+        "with fuzz mutations; keyword/delimiter soup; arbitrary bytes decoded as Latin-1; non-Latin-1 streams; comments that look like tool "
+        "directives / pragmas (13 bases: vhdl_ls off/on with explanation, pragma, synthesis) with a multi-byte character, tab or NBSP "
+        "inserted / substituted and a truncation at every position and case flips, in line and block comments, inside and outside "
+        "ignored regions, nested, at end of file, and as backtick directives; numeric boundary literals (magnitudes MIN-2..MAX+2 of "
+        "i8..i64/u8..u64, 10^19, 10^20, 2^100 in 35 literal forms: integer, exponent of decimal/real/based literals, base, bit string "
+        "length, based digits, real mantissa, physical literals, each plain / with underscores / with leading zeros, in 7 contexts); "
+        "mixed-width lines "
         "(1-5 characters outside the BMP in a block comment / string / stray before each of 16 literal and identifier kinds, followed "
         "after 0-6 Latin-1 characters by a 2-, 3- or 4-byte character; plus random mixed-width lines) with the additional oracle that "
         "the text carried by bit string and abstract literal tokens equals the source between their UTF-16 columns; the resumed loop (0-3 pending context "
